@@ -97,7 +97,7 @@ def limitsOf (v : Json) : List Limiter.Limit :=
     | .arr a => { n := natOf (a.getD 0 .null), period := natOf (a.getD 1 .null) }
     | _ => { n := 0, period := 0 }
 
-def outcomeName : Spec.C19.StartOutcome → String
+def startOutcomeName : Spec.C19.StartOutcome → String
   | .starts => "starts" | .startsAfterLimiterSleep => "starts-after-limiter-sleep" | .rejected => "rejected"
   | .panicked => "panicked" | .died => "died" | .hung => "hung" | .unknown => "unknown"
 
@@ -107,7 +107,7 @@ def opC19Judge (j : Json) : Json :=
     let so : Spec.C19.StartObs :=
       { died := bool o "died", panicked := bool o "panicked", rejected := bool o "rejected",
         loaded := bool o "loaded", late := (arr o "late").toList.map limitsOf, timeoutMs := nat o "timeout_ms" }
-    Json.mkObj [("holds", Spec.C19.startupObsHolds so), ("class", outcomeName (Spec.C19.classify so))]
+    Json.mkObj [("holds", Spec.C19.startupObsHolds so), ("class", startOutcomeName (Spec.C19.classify so))]
   else if !(isNull (get j "outcome")) then
     Json.mkObj [("holds", Spec.C19.startupHolds (Spec.C19.StartOutcome.ofString (str j "outcome")))]
   else
